@@ -842,6 +842,8 @@ impl LdapConnAsync {
                             verif_trace(String::from("drv end senderr"));
                             return Err(LdapError::from(e));
                         } else {
+                            #[cfg(ldap3_verif)]
+                            verif_trace(String::from("drv sent"));
                             match op {
                                 LdapOp::Single => {
                                     self.resultmap.insert(id, tx);
